@@ -231,7 +231,9 @@ def close(a: float, b: float) -> bool:
 # ---- tracers ---------------------------------------------------------------------------------------------
 
 
-def make_tracers(n: int, log: List[List[Any]]):
+def make_tracers(n: int, log: List[List[Any]], style: str = 'full'):
+    """recording tracers.  style: 'full' - all three hooks overridden; 'super' - all three overridden AND each calls the base class
+    implementation (the usual cooperative style); 'partial' - only begin / end overridden, on_error inherited from the library's Tracer"""
     from pjrpc.client.tracer import Tracer
 
     class Rec(Tracer):
@@ -240,11 +242,18 @@ def make_tracers(n: int, log: List[List[Any]]):
 
         def on_request_begin(self, trace_context, request):
             log.append(['begin', self.idx, id(trace_context), trace_context, request, None])
+            if style == 'super':
+                super().on_request_begin(trace_context, request)
 
         def on_request_end(self, trace_context, request, response):
             log.append(['end', self.idx, id(trace_context), trace_context, request, response])
+            if style == 'super':
+                super().on_request_end(trace_context, request, response)
 
+    class RecAll(Rec):
         def on_error(self, trace_context, request, error):
             log.append(['error', self.idx, id(trace_context), trace_context, request, error])
+            if style == 'super':
+                super().on_error(trace_context, request, error)
 
-    return [Rec(i) for i in range(n)]
+    return [(Rec if style == 'partial' else RecAll)(i) for i in range(n)]
